@@ -26,7 +26,8 @@ RULE = ("(a) coverage-guided fuzzing (libFuzzer, clang ASan+UBSan build of the w
         "real-exec reached exactly once with the caller's pointers and its (-1, errno) returned unchanged; sanitizer reports, "
         "fatal signals and 30 s timeouts (3/3 reproductions) are violations. (b) Hypothesis boundary sweep per component: "
         "every data source / filter / output with its argument string and both limits from {255..1048575}, natural output "
-        "lengths steered to L-2..L+3 (cmdline, filename, env, env_all, cwd, login, hostname, datetime, literal). non-trivial "
+        "lengths steered to L-2..L+3 (cmdline, filename, env, env_all, cwd, login, hostname, datetime, literal); two cases in five make the call from a "
+        "thread with a 64 or 128 KiB stack (plain build, a stack overflow is a fatal signal). non-trivial "
         "(a) = corpus unit whose config part contains [snoopy] and a recognised option name, counted as distinct coverage-"
         "increasing units kept by the fuzzer; (b) = case whose steered output is within 3 of a limit; distinct by component x "
         "limit x delta")
@@ -265,7 +266,9 @@ def strategy():
         l_log = draw(st.sampled_from(LIMITS))
         delta = draw(st.sampled_from([-2, -1, 0, 1, 2, 3]))
         which = draw(st.sampled_from(["ds", "ds", "log"]))
-        c = {"comp": comp, "l_ds": l_ds, "l_log": l_log, "delta": delta, "which": which}
+        # some callers are threads with a small stack (64-128 KiB): nothing proportional to the configured limits may live on the stack
+        c = {"comp": comp, "l_ds": l_ds, "l_log": l_log, "delta": delta, "which": which,
+             "stack": draw(st.sampled_from([0, 0, 0, 65536, 131072]))}
         if comp == "ds":
             c["name"] = draw(st.sampled_from(STEERED * 3 + NOARG + WITHARG))
             c["arg"] = draw(st.one_of(st.none(), gen.text_bytes(0, 20), gen.text_bytes(200, 900, boundaries=(254, 255, 256, 900)),
@@ -284,7 +287,8 @@ def strategy():
 
 
 def evaluate(env, c):
-    d = env.driver("ts-asan")
+    stack = c.get("stack", 0)
+    d = env.driver("ts-plain" if stack else "ts-asan")
     out = d.out
     target = (c["l_ds"] if c["which"] == "ds" else c["l_log"]) + c["delta"]
     target = max(0, min(target, 1048575 + 3))
@@ -346,15 +350,19 @@ def evaluate(env, c):
     if any(len(l) > 1500 for l in lines):
         return
     ops = [drv.op("x", out + "/log"), drv.op("S", 1, "null"), drv.op("S", 2, "null"), drv.op("K", "devlog", out + "/devlog.sock", 1),
-           drv.op("C", ini)] + ops_pre + [drv.op_env(environ), drv.op_exec("e", path, argv, [b"X=1"], ret=-1, err=5)]
+           drv.op("C", ini)] + ops_pre + [drv.op_env(environ)]
+    if stack:
+        ops += [drv.op("t", stack), drv.op("Z", 1, 0), drv.op_exec("e", path, argv, [b"X=1"], ret=-1, err=5, tno=0, callno=0)]
+    else:
+        ops.append(drv.op_exec("e", path, argv, [b"X=1"], ret=-1, err=5))
     res = d.scenario(ops)
     reports = d.sanitizer_reports()
     errs = res.errors()
     if res.timedout:
         raise Failure("wrapped call hangs", {"case": c["comp"] + ":" + name}, key="hang")
     if res.signaled or res.exitcode != 0 or reports:
-        raise Failure("memory-safety / UB report or fatal signal in %s '%s' (L_ds=%d, L_log=%d, steered length %d)" % (
-            c["comp"], name, c["l_ds"], c["l_log"], target), {"result": res.describe(), "sanitizer": [r[:2500] for r in reports[:1]]},
+        raise Failure("memory-safety / UB report or fatal signal in %s '%s' (L_ds=%d, L_log=%d, steered length %d%s)" % (
+            c["comp"], name, c["l_ds"], c["l_log"], target, ", caller is a thread with a %d KiB stack" % (stack // 1024) if stack else ""), {"result": res.describe(), "sanitizer": [r[:2500] for r in reports[:1]]},
             key="crash:" + classify_report(reports[0].encode("latin-1", "replace") if reports else b""))
     R, T = res.of("R"), res.of("T")
     if len(R) != 1 or len(T) != 1 or int(T[0].f[0]) != -1 or int(T[0].f[1]) != 5:
@@ -363,8 +371,8 @@ def evaluate(env, c):
 
 def classify(c):
     steered = c["comp"] != "ds" or c["name"] in STEERED
-    key = (c["comp"], c["name"], c["which"], c["l_ds"] if c["which"] == "ds" else c["l_log"], c["delta"]) if steered else None
-    return key, ["sweep", "sweep:" + c["comp"], "limit:" + c["which"], "sweep:" + c["comp"] + ":" + c["name"]]
+    key = (c["comp"], c["name"], c["which"], c["l_ds"] if c["which"] == "ds" else c["l_log"], c["delta"], c.get("stack", 0)) if steered else None
+    return key, ["sweep", "sweep:" + c["comp"], "limit:" + c["which"], "sweep:" + c["comp"] + ":" + c["name"]] + (["sweep:small-thread-stack"] if c.get("stack") else [])
 
 
 def main():
@@ -381,7 +389,7 @@ def main():
         else:
             print("replay: property holds for this input")
         ctx.finish()
-    fb, fbn, ab = ctx.run.build_many(["fuzz", "fuzz-nts", "ts-asan"])
+    fb, fbn, ab, pb = ctx.run.build_many(["fuzz", "fuzz-nts", "ts-asan", "ts-plain"])
     ctx.assumptions = ["absence of findings is not a proof: coverage-guided search over inputs up to 8 KiB",
                        "the fuzz target runs as uid 65534 in a private mount namespace where every world-writable directory is an empty "
                        "tmpfs, so fuzzed output paths cannot touch the system; data sources whose input the harness cannot shape (utmp, "
@@ -390,7 +398,7 @@ def main():
     if not ctx.replay:
         fuzz_phase(ctx, fb, fbn)
     nw, per = (4, 500) if ctx.quick else (16, 4000)
-    pbt.run(ctx, {"ts-asan": ab}, strategy, evaluate, classify, nw, per)
+    pbt.run(ctx, {"ts-asan": ab, "ts-plain": pb}, strategy, evaluate, classify, nw, per)
     ctx.finish()
 
 
